@@ -187,6 +187,13 @@ def execute(case):
     try:
         kind = case["reader"]
         want_free = case["form"] == "free"
+        # the detected source form is C05's question: a run whose form differs from the intended
+        # one is discarded before anything is judged
+        probe_rdr = open_reader("string", text, case, fs)
+        if bool(probe_rdr.format.is_free) != want_free:
+            return {"events": [["form-mismatch"]], "violations": [], "stats": stats,
+                    "nontrivial": False, "state_keys": [],
+                    "discarded": "detected-form-differs-from-intended"}
         try:
             rdr, form_free, items = plain_iteration(kind, text, case, fs)
         except SystemExit:
